@@ -81,6 +81,18 @@ def handwritten():
     # smuggling-ish
     S.append(({}, [(REQ, b'POST /s HTTP/1.1\r\nHost: h\r\nContent-Length: 4\r\nTransfer-Encoding: chunked\r\n\r\n0\r\n\r\n'), (RES, ok2), (CLOSE, None)]))
     S.append(({}, [(REQ, b'GET http://a.example/p HTTP/1.1\r\nHost: b.example\r\n\r\n'), (RES, ok2), (CLOSE, None)]))
+    # body-less responses (HEAD, 304, 204, 1xx) that still carry entity headers, followed on the same connection by coded responses
+    gzres = res([b'Content-Encoding: gzip', b'Content-Length: %d' % len(gz)], gz)
+    dfres = res([b'Content-Encoding: deflate', b'Content-Length: %d' % len(zl)], zl)
+    head = b'HEAD / HTTP/1.1\r\nHost: h\r\n\r\n'
+    S.append(({}, [(REQ, head), (RES, res([b'Content-Encoding: gzip', b'Content-Length: %d' % len(gz)])), (REQ, get), (RES, gzres), (CLOSE, None)]))
+    S.append(({}, [(REQ, get), (RES, res([b'Content-Encoding: gzip'], status=b'304 Not Modified')), (REQ, get), (RES, gzres), (REQ, get),
+                   (RES, res([b'Content-Encoding: deflate'], status=b'204 No Content')), (REQ, get), (RES, dfres), (CLOSE, None)]))
+    S.append(({'LZMA_LAYERS': 1}, [(REQ, head), (RES, res([b'Content-Encoding: lzma', b'Transfer-Encoding: chunked'])), (REQ, get),
+                                   (RES, res([b'Content-Encoding: lzma', b'Content-Length: %d' % len(lz)], lz)), (CLOSE, None)]))
+    S.append(({}, [(REQ, get + head + get), (RES, gzres + res([b'Content-Encoding: gzip, deflate', b'Content-Length: 10']) + dfres), (CLOSE, None)]))
+    S.append(({}, [(REQ, b'POST /e HTTP/1.1\r\nHost: h\r\nExpect: 100-continue\r\nContent-Length: 3\r\n\r\nabc'),
+                   (RES, b'HTTP/1.1 100 Continue\r\nContent-Encoding: gzip\r\n\r\n' + gzres), (CLOSE, None)]))
     # blank / blank-padded chunk-size lines (skipped by the response parser), chunk extensions, trailers
     S.append(({}, [(REQ, get), (RES, b'HTTP/1.1 200 OK\r\nTransfer-Encoding: chunked\r\n\r\n\r\n\r\n \r\n\r\n3\r\nabc\r\n\r\n\r\n 2;x=y\r\nde\r\n0\r\nT: 1\r\n\r\n'), (CLOSE, None)]))
     S.append(({}, [(REQ, get), (RES, b'HTTP/1.1 200 OK\r\nTransfer-Encoding: chunked\r\n\r\n\n\n\n1\na\n\n\n0\n\n'), (CLOSE, None)]))
